@@ -961,11 +961,14 @@ func (x *FnExec) finish(args []Val) {
 		x.errorf("%s: no exit reached", x.fnName())
 	}
 	for k, ca := range con.CallAsserts {
+		// every call-site assertion speaks about at least one call: always emitted (so that the
+		// claim is in the baseline), false when an edit removed the call the assertion is about
+		goal := Term("true")
+		src := ca.Src + " [the function calls " + ca.Callee + "]"
 		if !x.assertHit[k] {
-			// the call the assertion speaks about is gone: the assertion cannot hold (on the
-			// unchanged tree this shows up at once while writing the contract)
-			x.oblige(fmt.Sprintf("assert%d.no_call_site(%s)", k+1, sanitize(ca.Callee)), "assert", ca.Src+" [no call of "+ca.Callee+" in the function]", "true", "false")
+			goal = "false"
 		}
+		x.oblige(fmt.Sprintf("assert%d.has_call_site(%s)", k+1, sanitize(ca.Callee)), "assert", src, "true", goal)
 	}
 }
 
